@@ -1,0 +1,47 @@
+//go:build verif
+
+package io
+
+// Contracts for the verif build tag (comment-only; see /verif/DESIGN.md).
+
+//@ prop C17
+
+//@ spec varsize(v int) int = ite(v < 0xfd, 1, ite(v <= 0xffff, 3, ite(v <= 0xffffffff, 5, 9)))
+
+//@ func PutVarUint
+//@ requires len(data) >= 9
+//@ modifies data[0:9]
+//@ ensures[size] result == varsize(val)
+//@ ensures[enc1] result == 1 ==> data[0] == val
+//@ ensures[enc3] result == 3 ==> data[0] == 0xfd && data[1] + data[2]*256 == val
+//@ ensures[enc5] result == 5 ==> data[0] == 0xfe && data[1] + data[2]*256 + data[3]*65536 + data[4]*16777216 == val
+
+//@ spec le16(s seq, p int) int = s[p] + s[p+1]*256
+//@ spec le32(s seq, p int) int = s[p] + s[p+1]*256 + s[p+2]*65536 + s[p+3]*16777216
+//@ spec le64(s seq, p int) int = le32(s, p) + le32(s, p+4)*4294967296
+//@ spec be16(s seq, p int) int = s[p+1] + s[p]*256
+//@ spec validR(r *BinReader) bool = r != nil && r.r != nil && 0 <= r.r.pos && r.r.pos <= len(r.r.in)
+
+//@ func (*BinReader).ReadBytes
+//@ requires validR(r)
+//@ modifies r.Err, buf[0:len(buf)], r.r.pos
+//@ ensures[sticky] old(r.Err) != nil ==> r.Err == old(r.Err) && r.r.pos == old(r.r.pos) && forall(k, 0, len(buf), buf[k] == old(buf[k]))
+//@ ensures[ok] old(r.Err) == nil && old(r.r.pos) + len(buf) <= len(r.r.in) ==> r.Err == nil && r.r.pos == old(r.r.pos) + len(buf) && forall(k, 0, len(buf), buf[k] == r.r.in[old(r.r.pos)+k])
+//@ ensures[short] old(r.Err) == nil && old(r.r.pos) + len(buf) > len(r.r.in) ==> r.Err != nil
+//@ ensures[pos] old(r.r.pos) <= r.r.pos && r.r.pos <= len(r.r.in)
+
+//@ func (*BinReader).ReadU64LE
+//@ requires validR(r)
+//@ modifies r.Err, r.uv, r.r.pos
+//@ ensures[sticky] old(r.Err) != nil ==> result == 0 && r.Err == old(r.Err) && r.r.pos == old(r.r.pos)
+//@ ensures[ok] old(r.Err) == nil && old(r.r.pos) + 8 <= len(r.r.in) ==> r.Err == nil && r.r.pos == old(r.r.pos) + 8 && result == le64(r.r.in, old(r.r.pos))
+//@ ensures[short] old(r.Err) == nil && old(r.r.pos) + 8 > len(r.r.in) ==> r.Err != nil && result == 0
+//@ ensures[pos] old(r.r.pos) <= r.r.pos && r.r.pos <= len(r.r.in)
+
+//@ func (*BinReader).ReadB
+//@ requires validR(r)
+//@ modifies r.Err, r.uv, r.r.pos
+//@ ensures[sticky] old(r.Err) != nil ==> result == 0 && r.Err == old(r.Err) && r.r.pos == old(r.r.pos)
+//@ ensures[ok] old(r.Err) == nil && old(r.r.pos) + 1 <= len(r.r.in) ==> r.Err == nil && r.r.pos == old(r.r.pos) + 1 && result == r.r.in[old(r.r.pos)]
+//@ ensures[short] old(r.Err) == nil && old(r.r.pos) + 1 > len(r.r.in) ==> r.Err != nil && result == 0
+//@ ensures[pos] old(r.r.pos) <= r.r.pos && r.r.pos <= len(r.r.in)
